@@ -701,7 +701,8 @@ class SymEval:
         if k == "struct":
             sname = e[1].split("::")[-1]
             if sname == "Self":
-                sname = getattr(self.h, "self_ty", None) or sname
+                sname = getattr(self.h, "self_ty", None) or getattr(self, "fn_self_ty", None) or sname
+                sname = sname.split("<")[0].split("::")[-1]
             fields = {}
             if len(e) > 3 and e[3] is not None:
                 base = self.ev(e[3], env)          # struct update syntax: the remaining fields come from the base value
@@ -803,8 +804,23 @@ class SymEval:
         if lv is None:
             return None
         name = inner[1]
-        _, st = lv
-        return lambda: st((wrap, env[name]) if wrap else env[name]) if name in env else None
+        gt, st = lv
+        try:
+            orig = gt()
+        except (Anchor, Panic, KeyError, IndexError):
+            orig = None
+
+        def back():
+            if name not in env:
+                return None
+            try:
+                now = gt()
+            except (Anchor, Panic, KeyError, IndexError):
+                now = orig
+            if orig is not None and now is not orig and now != orig:
+                return None         # the place was given another value after the borrow's last use (e.g. `place.take()`): nothing to store back
+            return st((wrap, env[name]) if wrap else env[name])
+        return back
 
     def arith(self, op, a, b, e):
         if isinstance(a, int) and isinstance(b, int) and not isinstance(a, bool) and not isinstance(b, bool):
@@ -933,6 +949,8 @@ class SymEval:
                                 return r_.v
                         finally:
                             self.depth -= 1
+                if not args:
+                    return self.ev(["call", ["path", clo[1]], []], Scope({}))       # `String::new` named as a value and called
                 if "::" in clo[1] and args:
                     # `Trait::method` / `Type::method` named as a value: a method call on its first argument
                     sc = Scope({"__recv": args[0]})
@@ -1305,6 +1323,14 @@ class SymEval:
                 return old
             if m == "remove" and len(args) == 1:
                 return ("some", d.pop(key(args[0]))) if key(args[0]) in d else NONE
+            if m == "extend" and len(args) == 1:
+                a0 = args[0]
+                pairs = [] if a0 == NONE else [a0[1]] if (isinstance(a0, tuple) and a0[0] == "some") else list(a0[1]) if (isinstance(a0, tuple) and a0[0] == "list") else None
+                if pairs is None or not all(isinstance(x, tuple) and x and x[0] == "tuple" and len(x[1]) == 2 for x in pairs):
+                    self.fail("extend of a map with something else than key/value pairs", e)
+                for x in pairs:
+                    d[key(x[1][0])] = x[1][1]
+                return UNIT
             if m == "entry" and len(args) == 1:
                 return ("enum", "Entry::Occupied" if key(args[0]) in d else "Entry::Vacant", [("entryref", d, key(args[0]), args[0])])
             if m in ("keys", "values", "iter") and not args and len(d) <= 1:
@@ -1426,6 +1452,15 @@ class SymEval:
                 return ("list", [recv[1]] if some else [])
             if m == "flatten" and not args:
                 return recv[1] if some else NONE
+            if m == "transpose" and not args:
+                # Option<Result<T, E>> -> Result<Option<T>, E>
+                if not some:
+                    return ("ok", NONE)
+                if isinstance(recv[1], tuple) and recv[1] and recv[1][0] == "ok":
+                    return ("ok", ("some", recv[1][1]))
+                if isinstance(recv[1], tuple) and recv[1] and recv[1][0] == "err":
+                    return recv[1]
+                self.fail("transpose of an Option of unknown payload shape", e)
             if m in ("unwrap", "expect"):
                 if not some:
                     raise Panic("%s on None" % m)
